@@ -4,5 +4,5 @@ P="$1"; ID="$2"; TIER="${3:-quick}"; export VERIF_SEED="${4:-1}"
 cd /repo || exit 2
 if [ -n "$(git status --porcelain --untracked-files=no)" ]; then echo "repo dirty"; exit 2; fi
 git apply "$P" || { echo "patch does not apply"; exit 2; }
-cd /verif && ./check "$ID" "$TIER" 2>&1 | cut -c1-220 | grep -v "^  sig" | head -20
+cd /verif && ./check "$ID" "$TIER" 2>&1 | grep -v "^  sig\|overflowed its stack\|fatal runtime\|^$" | cut -c1-160 | tail -25
 cd /repo && git checkout -- . && echo "[reverted]"
